@@ -170,6 +170,16 @@ func main() {
 			if !ok1 || !ok2 || !bytes.Equal(ps.key, po.key) {
 				vlib.Die("context serialisation no longer has the documented layout")
 			}
+			// a context restores from its own marshalled form: otherwise it cannot "continue where the original would" at all - an event the
+			// specification has no step for (restore with ok = false)
+			if _, e1 := hpke.UnmarshalSealer(append([]byte{}, ms...)); e1 != nil {
+				o.Emit(ev{Ev: "restore", Tr: tr, Aead: ai, Ok: false, SeqS: []int{}, SeqO: []int{}, Nonce: []int{}, GotPt: -1})
+				continue
+			}
+			if _, e2 := hpke.UnmarshalOpener(append([]byte{}, mo...)); e2 != nil {
+				o.Emit(ev{Ev: "restore", Tr: tr, Aead: ai, Ok: false, SeqS: []int{}, SeqO: []int{}, Nonce: []int{}, GotPt: -1})
+				continue
+			}
 			ref := newAEAD(aid, ps.key)
 			base := append([]byte{}, ps.base...)
 			// patch the start value into both contexts
